@@ -499,6 +499,15 @@ def rewrite_body(S, b0, b1, opts, log):
         log.append({"rule": rule, "note": note})
     if opts.get("slice"):
         text = apply_slice(text, opts, log)
+    # site substitutions whose pattern may span lines: blanks in the pattern match any run of white
+    # space (also none) in the text
+    for old, new in opts.get("wsubst", []):
+        rx = re.compile(r"\s*".join(re.escape(piece) for piece in old.split()))
+        hits = rx.findall(text)
+        if len(hits) != 1:
+            raise ExtractError(f"lost anchor: wsubst `{old}` matches {len(hits)} times")
+        text = rx.sub(lambda _m: new, text, count=1)
+        log.append({"rule": "R-site", "note": f"`{old}` (white space insensitive) -> `{new}`"})
     # literal site substitutions
     for old, new in opts.get("subst", []):
         if text.count(old) != 1:
@@ -561,6 +570,8 @@ def emit_fn(root, d, log_all):
             depth += 1
         elif t.kind == "punct" and t.text in (")", "]", ">"):
             depth -= 1
+        elif t.kind == "punct" and t.text == ">>":
+            depth -= 2          # in a signature `>>` closes two generic argument lists
         elif t.kind == "punct" and t.text == "->" and depth == 0:
             arrow = k
         elif t.kind == "ident" and t.text == "where" and depth == 0:
@@ -885,6 +896,11 @@ def parse_template(path):
                 if not m:
                     raise ExtractError(f"{path}:{i+1}: bad subst_all")
                 cur.setdefault("subst_all", []).append((m.group(1), m.group(2)))
+            elif cmd.startswith("wsubst "):
+                m = re.match(r"wsubst\s+<<(.*?)>>\s*==>\s*<<(.*)>>\s*$", cmd)
+                if not m:
+                    raise ExtractError(f"{path}:{i+1}: bad wsubst")
+                cur.setdefault("wsubst", []).append((m.group(1), m.group(2)))
             elif cmd.startswith("subst "):
                 m = re.match(r"subst\s+<<(.*?)>>\s*==>\s*<<(.*)>>\s*$", cmd)
                 if not m:
